@@ -102,6 +102,7 @@ type FuncExec struct {
 	trial          bool // invariant-inference run: only "infer" obligations are recorded
 	idom           map[*ssa.BasicBlock]*ssa.BasicBlock
 	assertAnchor   map[ssa.Instruction][]*AssertAt
+	anchorOrd      map[ssa.Instruction]int
 	ghostAnchor    map[ssa.Instruction][]*GhostSet
 }
 
@@ -1037,6 +1038,28 @@ func (x *Exec) checkAsserts(st *State, b *ssa.BasicBlock, ins ssa.Instruction) {
 			return nil
 		}
 		for _, as := range fx.contract.Asserts {
+			if as.Nth < 0 {
+				// "#*": the assertion holds before every source line containing the text
+				n := 0
+				for k := 1; ; k++ {
+					in := find(as.At, k)
+					if in == nil || (k > 1 && in == find(as.At, 1)) {
+						break
+					}
+					fx.assertAnchor[in] = append(fx.assertAnchor[in], as)
+					if fx.anchorOrd == nil {
+						fx.anchorOrd = map[ssa.Instruction]int{}
+					}
+					fx.anchorOrd[in] = k
+					n++
+				}
+				if n == 0 {
+					fx.eng.mu.Lock()
+					fx.eng.unsup[fx.name] = append(fx.eng.unsup[fx.name], "assert anchor not found: "+as.At)
+					fx.eng.mu.Unlock()
+				}
+				continue
+			}
 			first := find(as.At, as.Nth)
 			if first != nil && strings.Contains(as.C.Text, "$ret") {
 				// an assertion about the returned value is proved at the return instruction of that line
@@ -1126,7 +1149,13 @@ func (x *Exec) checkAsserts(st *State, b *ssa.BasicBlock, ins ssa.Instruction) {
 		for _, cj := range x.eng.cs.goals(as.C.E) {
 			k++
 			g := sc.evalBool(cj)
-			x.eng.oblige(fx, st, "assert", fmt.Sprintf("%s#%d.%d", as.At, n+1, k), g, cj.String(), ins.Pos())
+			key := fmt.Sprintf("%s#%d.%d", as.At, n+1, k)
+			if as.Nth < 0 {
+				// one obligation per anchored line: the line's own text names it
+				txt, _ := x.eng.srcLineFull(ins.Pos())
+				key = fmt.Sprintf("%s@%d:%s#%d.%d", as.At, fx.anchorOrd[ins], strings.TrimSpace(txt), n+1, k)
+			}
+			x.eng.oblige(fx, st, "assert", key, g, cj.String(), ins.Pos())
 			st.assume(g)
 		}
 	}
